@@ -10,6 +10,132 @@ METHODS = {}      # (typetag, method) -> fn(ex, self, args, kwargs)
 ATTRS = {}        # (typetag, attr) -> fn(ex, self)
 
 
+def _gen_result(fr):
+    it = SeqIter(fr.yielded, 0)
+    if getattr(fr, "gen_pool", None) is not None:
+        it.pool = fr.gen_pool
+    return it
+
+
+class KwGuard(dict):
+    """the keyword arguments of a call into a library MODEL, remembering which of them the model looked at: a keyword the
+    model never reads would be silently ignored (max(xs, default=0) treated as max(xs)), so the call is refused instead."""
+
+    def __init__(self, d):
+        dict.__init__(self, d)
+        self.used = set()
+
+    def _all(self):
+        self.used.update(dict.keys(self))
+
+    def get(self, k, default=None):
+        self.used.add(k)
+        return dict.get(self, k, default)
+
+    def __getitem__(self, k):
+        self.used.add(k)
+        return dict.__getitem__(self, k)
+
+    def __contains__(self, k):
+        self.used.add(k)
+        return dict.__contains__(self, k)
+
+    def pop(self, k, *a):
+        self.used.add(k)
+        return dict.pop(self, k, *a)
+
+    def __iter__(self):
+        self._all()
+        return dict.__iter__(self)
+
+    def keys(self):
+        self._all()
+        return dict.keys(self)
+
+    def items(self):
+        self._all()
+        return dict.items(self)
+
+    def values(self):
+        self._all()
+        return dict.values(self)
+
+    def __len__(self):
+        self._all()
+        return dict.__len__(self)
+
+    def __bool__(self):
+        self._all()
+        return dict.__len__(self) > 0
+
+    def unused(self):
+        return sorted(k for k in dict.keys(self) if k not in self.used)
+
+
+class ArgGuard(list):
+    """the positional arguments of a call into a library MODEL, remembering which positions the model read (same purpose
+    as KwGuard: np.round(x, 2) must not be answered as np.round(x))"""
+
+    def __init__(self, xs):
+        list.__init__(self, xs)
+        self.seen = set()
+
+    def __getitem__(self, i):
+        if isinstance(i, slice):
+            self.seen.update(range(*i.indices(list.__len__(self))))
+        else:
+            self.seen.add(i if i >= 0 else i + list.__len__(self))
+        return list.__getitem__(self, i)
+
+    def __iter__(self):
+        self.seen.update(range(list.__len__(self)))
+        return list.__iter__(self)
+
+    def __add__(self, o):
+        self.seen.update(range(list.__len__(self)))
+        return list(list.__iter__(self)) + list(o)
+
+    def __radd__(self, o):
+        self.seen.update(range(list.__len__(self)))
+        return list(o) + list(list.__iter__(self))
+
+    def unread(self):
+        return [i for i in range(list.__len__(self)) if i not in self.seen]
+
+
+# keywords that do not change what a call computes (progress bars, console output, memory layout hints)
+HARMLESS_KW = {"total", "desc", "file", "flush", "end", "sep", "disable", "leave"}
+
+
+ARGS_IGNORED_OK = {"builtins.print", "tqdm.tqdm", "tqdm.tqdm.tqdm"}
+
+
+def guarded_call(name, kwargs, thunk, args=None):
+    kw = kwargs if isinstance(kwargs, KwGuard) else KwGuard(kwargs or {})
+    ag = ArgGuard(args) if args is not None else None
+
+    def problems():
+        out = []
+        left = [k for k in kw.unused() if k not in HARMLESS_KW]
+        if left:
+            out.append(f"keyword argument(s) {left} of {name} are not modelled")
+        if ag is not None and name not in ARGS_IGNORED_OK and not name.endswith(".__exit__") and ag.unread():
+            out.append(f"positional argument(s) #{ag.unread()} of {name} are not modelled")
+        return out
+    try:
+        r = thunk(kw) if ag is None else thunk(kw, ag)
+    except SymRaise:
+        # an exception the model raises without having looked at every argument may be one that argument prevents
+        p = problems()
+        if p:
+            raise Unsupported(p[0])
+        raise
+    p = problems()
+    if p:
+        raise Unsupported(p[0])
+    return r
+
+
 class Const:
     def __init__(self, v):
         self.v = v
@@ -240,12 +366,12 @@ class Exec:
             self.exec_block(fdef.body, fr)
         except _Return as r:
             if is_gen:
-                return SeqIter(fr.yielded, 0)
+                return _gen_result(fr)
             return r.v
         finally:
             self.call_depth -= 1
         if is_gen:
-            return SeqIter(fr.yielded, 0)
+            return _gen_result(fr)
         return None
 
     def bind_params(self, a, args, kwargs, fr, modqual):
@@ -294,7 +420,7 @@ class Exec:
                 fn = None
             if fn is None:
                 raise Unsupported(f"library function {f.mod}.{f.attr}")
-            return fn(self, list(args), kwargs)
+            return guarded_call(f"{f.mod}.{f.attr}", kwargs, lambda kw, ag: fn(self, ag, kw), args=list(args))
         if isinstance(f, BoundMethod):
             return self.call_method(f.obj, f.name, list(args), kwargs)
         if isinstance(f, Closure):
@@ -346,7 +472,7 @@ class Exec:
             return METHODS[("NDArray", name)](self, as_ndarray(obj), list(args), kwargs)
         if fn is None:
             raise Unsupported(f"method {tag}.{name}")
-        return fn(self, obj, list(args), kwargs)
+        return guarded_call(f"{tag}.{name}", kwargs, lambda kw, ag: fn(self, obj, ag, kw), args=list(args))
 
     # ======================================================================================
     # statements
@@ -372,7 +498,32 @@ class Exec:
     def ev_Yield(self, e, fr):
         if not hasattr(fr, "yielded"):
             raise Unsupported("yield outside a generator function")
+        if not isinstance(fr.yielded, list):
+            raise Unsupported("yield after a symbolic-length 'yield from'")
         fr.yielded.append(self.eval(e.value, fr) if e.value is not None else None)
+        return None
+
+    def ev_YieldFrom(self, e, fr):
+        """yield from <iterable> (eager, like yield): every element of the source, in order; a symbolic-length source is
+        taken as the whole output (nothing may be yielded before or after it)"""
+        if not hasattr(fr, "yielded"):
+            raise Unsupported("yield from outside a generator function")
+        src = self.eval(e.value, fr)
+        if isinstance(src, SeqIter):
+            c = as_const(src.pos) if is_z3(src.pos) else src.pos
+            if c != 0:
+                raise Unsupported("yield from a partly consumed iterator")
+            if getattr(src, "pool", None) is not None:
+                fr.gen_pool = src.pool        # the pool behind the iterator that is re-yielded (lifetime obligations)
+            seq = src.seq
+        else:
+            seq = self.as_iterable(src)
+        if isinstance(seq, list) and isinstance(fr.yielded, list):
+            fr.yielded.extend(seq)
+        elif isinstance(fr.yielded, list) and not fr.yielded:
+            fr.yielded = seq
+        else:
+            raise Unsupported("yield from a symbolic-length sequence next to other yields")
         return None
 
     def st_Import(self, s, fr):
